@@ -57,18 +57,18 @@ PROPERTIES = {
                 explanation='lock-rank discipline: at every acquisition site (original source text of the engines, registries and of the real macro expansions) every lock already held has a strictly smaller rank and no lock is re-acquired; a sufficient condition for deadlock freedom for all schedules',
                 assumptions=['locks taken inside user closures / predicates / estimate_memory are not covered', 'parking_lot locks are fair enough not to starve (deadlock freedom only)'],
                 trusted=['extract/locks.py: guard lifetimes follow Rust drop semantics (let-bound guards to end of block, temporaries to end of statement / scrutinee construct)']),
-    'C06': dict(units=ENGINES, explanation='is_expired == (age >= ttl) and the get postconditions never_serves_expired / purges_expired / serves_unexpired, for all ttl and ages'),
-    'C04': dict(units=ENGINES + ['wrappers_global', 'wrappers_async'], explanation='wf / bound / exact-victim postconditions of insert and of the entry-limit eviction, all N, all six policies; the invalidation callbacks and wrappers emitted by the macros preserve the representation invariant the capacity bookkeeping rests on (queue and store hold exactly the same keys, once each)'),
+    'C06': dict(units=ENGINES, extra=[_reg('C06')], explanation='on every fixture expansion the ttl attribute arrives at the constructor as written (structural); is_expired == (age >= ttl) and the get postconditions never_serves_expired / purges_expired / serves_unexpired, for all ttl and ages'),
+    'C04': dict(units=ENGINES + ['wrappers_global', 'wrappers_async'], extra=[_reg('C04')], explanation='on every fixture expansion the limit attribute arrives at the constructor as written (structural); wf / bound / exact-victim postconditions of insert and of the entry-limit eviction, all N, all six policies; the invalidation callbacks and wrappers emitted by the macros preserve the representation invariant the capacity bookkeeping rests on (queue and store hold exactly the same keys, once each)'),
     'C01': dict(units=ENGINES + WRAPPERS, explanation='get returns a clone of the value stored under exactly this key; insert: last store wins, survivors unchanged'),
-    'C07': dict(units=ENGINES, explanation='queue postconditions: hit_recency, store moves key to back, FIFO/LRU victim is the queue front'),
-    'C08': dict(units=ENGINES_SCORES, extra=[_kani('C08')], explanation='hit_counts postcondition and argmin postconditions of the scoring helpers'),
-    'C05': dict(units=ENGINES + ['memory_estimator'], explanation='insert_with_memory: total <= max_memory after every store, oversize value not cached and displaces nothing, no eviction while the total fits, FIFO/LRU victims are the oldest; memory totals are a proved fold along the queue (no total axioms); unit memory_estimator: the built-in estimators (String, Vec, Option, Result, 2-/3-tuples, Box) return inline size + owned heap capacity, recursively, without underflow',
+    'C07': dict(units=ENGINES + ['policy'], extra=[_reg('C07')], explanation='on every fixture expansion the policy attribute arrives at the constructor as written (sync: the variant; async: the string, and EvictionPolicy::from maps every policy name to its own variant: unit policy); queue postconditions: hit_recency, store moves key to back, FIFO/LRU victim is the queue front'),
+    'C08': dict(units=ENGINES_SCORES + ['policy'], extra=[_kani('C08'), _reg('C08')], explanation='policy and frequency_weight attributes arrive at the constructor as written (structural; EvictionPolicy::from verified in unit policy); hit_counts postcondition and argmin postconditions of the scoring helpers'),
+    'C05': dict(units=ENGINES + ['memory_estimator'], extra=[_reg('C05')], explanation='on every fixture expansion the max_memory attribute arrives at the constructor in bytes, KB/MB/GB as powers of 1024 (structural); insert_with_memory: total <= max_memory after every store, oversize value not cached and displaces nothing, no eviction while the total fits, FIFO/LRU victims are the oldest; memory totals are a proved fold along the queue (no total axioms); unit memory_estimator: the built-in estimators (String, Vec, Option, Result, 2-/3-tuples, Box) return inline size + owned heap capacity, recursively, without underflow',
                 assumptions=['hit counters never saturate (u64::MAX hits on one entry)', 'sum of the estimates fits usize (machine arithmetic)']),
     'C02': dict(units=WRAPPERS + ['keys'], explanation='wrapper contracts: on every fixture expansion the cache is read and written under exactly key_str(d(p1) + "|" + d(p2) ...) with every parameter (and the receiver) present in order, d = Debug rendering (keys.rs blanket impl verified); lemmas: such keys are injective on argument tuples when each rendering is injective and "|"-safe',
                 assumptions=['std Debug of the built-in key types is injective and self-delimiting w.r.t. "|" (axioms ax_builtin_debug / ax_builtin_types); user CacheableKey impls and distinct NaN payloads are not covered'],
                 trusted=['R9 rewrites: expanded format!("{:?}", x) -> debug_fmt(&x); Vec<String>::join(sep) -> vec_join']),
-    'C03': dict(units=ENGINES + WRAPPERS + ['monotone', 'wrappers_async_await'], explanation='engine contracts (a lookup never removes an unexpired entry; an unbounded store keeps everything) and wrapper contracts on the real macro expansions: a hit is served without running the body, a miss runs it exactly once and stores the result (effect log). Concurrent sentence (global and async engines, configuration without limit / ttl / max_memory): unit monotone proves on the real get / insert code, under the interference projection, that every store critical section leaves every resident key resident (rely/guarantee: ghost key set threaded through the acquisitions), that a lookup returning None did not see the key at its read section, and that the key is resident when insert returns; unit wrappers_async_await: with arbitrary interference at the .await the body runs at most once per call and the resumed call stores its result',
-                assumptions=['concurrent sentence: the final step from "every critical section is monotone" to "no lookup misses after a storing call has returned" is a two-line argument over the proved obligations, not mechanised; the sync wrappers under interference during the body are not mechanised (the body runs with no lock held: lock analysis)', 'fixture bodies are deterministic functions of their arguments']),
+    'C03': dict(units=ENGINES + WRAPPERS + ['monotone', 'wrappers_async_await', 'wrappers_global_await'], explanation='engine contracts (a lookup never removes an unexpired entry; an unbounded store keeps everything) and wrapper contracts on the real macro expansions: a hit is served without running the body, a miss runs it exactly once and stores the result (effect log). Concurrent sentence (global and async engines, configuration without limit / ttl / max_memory): unit monotone proves on the real get / insert code, under the interference projection, that every store critical section leaves every resident key resident (rely/guarantee: ghost key set threaded through the acquisitions), that a lookup returning None did not see the key at its read section, and that the key is resident when insert returns; units wrappers_async_await / wrappers_global_await: with arbitrary interference while the body runs (no lock held) the body runs at most once per call, a hit is served without it, and the call then stores its own result under its own key',
+                assumptions=['concurrent sentence: the final step from "every critical section is monotone" to "no lookup misses after a storing call has returned" is a two-line argument over the proved obligations, not mechanised', 'fixture bodies are deterministic functions of their arguments']),
     'C09': dict(units=ENGINES + WRAPPERS, explanation='insert_result* leave the cache untouched for Err and store Ok; wrapper contracts on the expansions of Result / std::result::Result fixtures (sync and async, with and without max_memory): Err is never stored, Ok is'),
     'C10': dict(units=WRAPPERS, explanation='wrapper contracts on the expansions of cache_if fixtures: the predicate is consulted exactly once per body run with that key (effect log) and its verdict on (key, result) decides the store; sync Result: only Ok',
                 assumptions=['predicates are pure functions of (key, value)']),
